@@ -82,8 +82,55 @@ inductive DecOut where
 def presetUsedOf (preset : Array Nat) (dictBuf : Nat) : Array Nat :=
   preset.extract (preset.size - min preset.size dictBuf) preset.size
 
+/-- Does the symbol loop stop with the error of `LZDecoder::repeat` ("dist overflow", `dist >= full`)?
+`LZMADecoder::decode` hands that error out at once (`lz.repeat(..)?`), WITHOUT the `rc.normalize()` that ends a call
+whose loop ran to the limit (`while lz.has_space() { .. }; rc.normalize(); Ok(())`). -/
+def Stop.isRepeatErr : Stop → Bool
+  | .endMarker | .distOverflow => true
+  | _ => false
+
+/-- What `LZMAReader::read_decode` does with the result of `LZMADecoder::decode`, in the order of the code
+(`len` = length of the input, `presetSize` = bytes of preset dictionary in the history, `d` = range decoder state when the
+symbol loop stopped):
+
+```text
+let decode_result = self.lzma.decode(&mut self.lz, &mut self.rc);     // Ok: ended with rc.normalize(); Err: did not
+if let Some(error) = self.rc.stream_error() { return Err(error); }    // a byte was missing so far: UnexpectedEof
+match decode_result {
+    Ok(_) => {}
+    Err(e) => {
+        if self.remaining_size != u64::MAX || !self.lzma.end_marker_detected() { return Err(e); }   // Other
+        self.end_reached = true;
+        self.rc.normalize();
+        if let Some(error) = self.rc.stream_error() { return Err(error); }
+    }
+}
+.. flush .. if self.end_reached { if self.lz.has_pending() .. { return Err(error_invalid_data(..)) } return Ok(size) }
+```
+
+So a corrupt symbol ("dist overflow", or an end marker in a stream with a declared size) is `Other` unless a byte was
+missing BEFORE the decoder got there; the byte the final normalisation would have asked for is never requested. -/
+def rawFinish (presetSize : Nat) (size : Option Nat) (len : Nat) (r : LoopRes) (d : Dec) : DecOut :=
+  let out := r.hist.extract presetSize r.hist.size
+  -- `decode`: final `rc.normalize()` only when the loop ended because `has_space()` became false
+  let d := if r.stop.isRepeatErr then d else d.normalize
+  -- `stream_error()` after `decode`
+  if d.over > 0 then .err .eof
+  else match r.stop with
+    | .limit => .ok out (len - d.inp.length) r.parse.reverse
+    | .endMarker => (match size with
+        | none =>
+          -- `end_reached = true; rc.normalize(); stream_error()`
+          let d := d.normalize
+          if d.over > 0 then .err .eof else .ok out (len - d.inp.length) r.parse.reverse
+        | some _ => .err .other)      -- `remaining_size != u64::MAX`: the error of `decode` is returned
+    | .distOverflow => .err .other    -- `!end_marker_detected()`
+    | .overrun => .err .invalidData   -- `has_pending()` at the declared end
+    | .fuel => .capped
+
 /-- `LZMAReader` over a raw LZMA1 stream (no `.lzma` header).
-`size = none` is `u64::MAX` (end marker expected). `cap` bounds the output of the model. -/
+`size = none` is `u64::MAX` (end marker expected). `cap` bounds the output of the model.
+Whole-stream view (one `decode` over all symbols); `rawFinish` is the tail of `read_decode`. -/
 def decodeRaw (pr : Params) (dictBuf : Nat) (preset : Array Nat) (size : Option Nat)
     (input : List Nat) (cap : Nat) : DecOut :=
   match input with
@@ -97,18 +144,7 @@ def decodeRaw (pr : Params) (dictBuf : Nat) (preset : Array Nat) (size : Option 
       let fuel := (match size with | some n => n + 1 | none => cap + 1)
       let ps0 : Probs := Array.replicate (numProbs pr.lc pr.lp) PROB_INIT
       let (r, _, d) := (loopProg pr dictBuf fuel size Coder.init presetUsed [] 0).decRun ps0 d0
-      let d := d.normalize
-      let out := r.hist.extract presetUsed.size r.hist.size
-      let consumed := input.length - d.inp.length
-      if d.over > 0 then .err .eof
-      else match r.stop with
-        | .limit => .ok out consumed r.parse.reverse
-        | .endMarker => (match size with
-            | none => .ok out consumed r.parse.reverse
-            | some _ => .err .other)
-        | .distOverflow => .err .other
-        | .overrun => .err .invalidData
-        | .fuel => .capped
+      rawFinish presetUsed.size size input.length r d
 
 /-- `get_dict_size` of `lzma_reader.rs`: at least 4096, rounded up to a multiple of 16 -/
 def lzmaDictBuf (dict : Nat) : Nat := ((max dict 4096 + 15) / 16) * 16
